@@ -65,7 +65,8 @@ def run(ctx, facts):
     zero = [w for (w, f) in incs if w["k"] == "Assign" and nf.nf(w["r"]) == "0"]
     other = [w for (w, f) in incs if w not in plus and w not in zero]
     body = nx["hir"]
-    if len(plus) == 1 and plus[0] in body["stmts"] and not other:
+    # unconditional: a top-level statement that no earlier guard clause (`if .. { return .. }`) can skip
+    if len(plus) == 1 and plus[0] in body["stmts"] and not other and not nf.control_facts(t, plus[0], res=R):
         ctx.ok("COUNTER", FY + "next", "one unconditional lastidx += 1 per draw", hirq.loc(plus[0]))
     else:
         ctx.violation("COUNTER", FY + "next", "cursor increment", hirq.loc(nx), "expected exactly one unconditional `self.lastidx += 1` in next; found %d increment(s), %d other write(s)" % (len(plus), len(other)))
